@@ -277,13 +277,24 @@ Section Marshal.
      while the send is suspended (the only use of the connection that is allowed then: another
      send_message would overwrite header_buf); resume(conn, m, progress), written to the end.
      When send_message fails there is nothing to suspend; the k allocations still happen. *)
-  Inductive op := OpAlloc | OpSend (m : message) | OpSendResumed (m : message) (k : nat).
+  (* How a send can end without being written to the end. None of these paths touches serial_counter:
+     DroppedAtZero   - nothing was accepted (socket full: EAGAIN / time-out at zero bytes), the context is
+                       dropped (Drop does nothing at zero bytes) or force_finish is called (send_hello on a time-out)
+     ForceFinished   - force_finish / force_finish_on_error after a partial write
+     IoError         - write / write_all / send_message_write_all fails with an I/O error (EBADF for a closed
+                       attached descriptor, EPIPE when the peer is gone); force_finish_on_error forgets the context *)
+  Inductive abandon := DroppedAtZero | ForceFinished | IoError.
+
+  Inductive op := OpAlloc | OpSend (m : message) | OpSendResumed (m : message) (k : nat)
+                | OpSendAbandoned (m : message) (how : abandon).
 
   (* what the caller and the peer observe *)
   Inductive event :=
   | EvAlloc (s : N)                                   (* alloc_serial returned s *)
   | EvSent (preset : option N) (reported : N) (hb : list N)   (* send_message -> ctx; ctx.serial(); header on the wire *)
   | EvSendErr (preset : option N) (between : list N)  (* send_message returned Err (then, for OpSendResumed, the k allocations) *)
+  | EvAbandoned (preset : option N) (serial : N) (hb : list N)
+      (* send_message -> ctx with ctx.serial() = serial and header hb in header_buf; the message was not completed *)
   | EvSentResumed (preset : option N) (between : list N) (reported : N) (hb : list N).
       (* as EvSent for a send that was suspended and resumed: the serials alloc_serial returned in
          between, the serial of the resumed context (what write() returns), the header it transmits *)
@@ -296,6 +307,13 @@ Section Marshal.
         let '(c, x) := r in
         match x with
         | Some x => Ok (c, EvSent (dh_serial (msg_dyn m)) (ctx_serial x) (header_buf (cx_conn x)))
+        | None => Ok (c, EvSendErr (dh_serial (msg_dyn m)) [])
+        end
+    | OpSendAbandoned m _ =>
+        do r <- send_message c m;
+        let '(c, x) := r in
+        match x with
+        | Some x => Ok (c, EvAbandoned (dh_serial (msg_dyn m)) (ctx_serial x) (header_buf (cx_conn x)))
         | None => Ok (c, EvSendErr (dh_serial (msg_dyn m)) [])
         end
     | OpSendResumed m k =>
@@ -311,6 +329,17 @@ Section Marshal.
         | None => Ok (c, EvSendErr (dh_serial (msg_dyn m)) between)
         end
     end.
+
+  (* many allocations at once (the harness op x<n>): what k calls of alloc_serial leave behind and the
+     last serial they return, without running them one by one; equal to alloc_n by alloc_many_spec *)
+  Definition alloc_many (k : N) (c : send_conn) : outcome (send_conn * N) :=
+    if serial_counter c + k <? 2^32
+    then Ok ({| header_buf := header_buf c; serial_counter := serial_counter c + k |}, serial_counter c + k - 1)
+    else Panic.
+
+  (* DuplexConn::send_hello: `if resp.dynheader.response_serial != Some(serial) { return Err(AuthFailed) }` *)
+  Definition hello_matches (serial : N) (resp : dynheader) : bool :=
+    match dh_response_serial resp with Some s => s =? serial | None => false end.
 
   Fixpoint run_ops (ops : list op) (c : send_conn) : outcome (send_conn * list event) :=
     match ops with
